@@ -57,6 +57,9 @@ func TestVerifC03(t *testing.T) {
 	roots := []string{vBundledRoot}
 	if g := vGenRoot(); g != "" {
 		roots = append(roots, g)
+		if x := vGenExtraRoot(); x != "" {
+			roots = append(roots, x) // two audio AdaptationSets with different frame durations
+		}
 	}
 	type job struct {
 		root, asset, rep string
@@ -67,6 +70,9 @@ func TestVerifC03(t *testing.T) {
 	var jobs []job
 	for _, root := range roots {
 		for _, ap := range vAssetPaths(root) {
+			if !vExtraWanted(root, ap, "x_two_audio") {
+				continue
+			}
 			if vTimeOffsetAsset(ap) {
 				continue // see DESIGN: assets whose first segment does not start at media time 0 are probed by C02 only
 			}
